@@ -48,6 +48,9 @@ def run(c):
     mod = np.array([[dyadic(rng, 0.5, 8, 4) for _ in range(W)] for _ in range(H)], np.float32)
     data = np.array([[dyadic(rng, -4, 12, 4) for _ in range(W)] for _ in range(H)], np.float32)
     rms = np.array([[dyadic(rng, 0.25, 3, 4) for _ in range(W)] for _ in range(H)], np.float32)
+    if c["loss"] == "cash_loss" and c.get("wide_model", True) and c["seed"] % 2 == 0:
+        # the Cash statistic is documented for every POSITIVE model: faint wings of a compact source reach 1e-12 and below
+        mod = np.array([[2.0 ** int(rng.integers(-45, 8)) for _ in range(W)] for _ in range(H)], np.float32)
     if c["mask"] == "none":
         user = None
     else:
